@@ -744,8 +744,9 @@ bool BW_MidiSequencer::buildSmfTrackData(const std::vector<std::vector<uint8_t> 
                     if(m_loop.stackLevel >= static_cast<int>(m_loop.stack.size()))
                     {
                         LoopStackEntry e;
-                        e.loops = event.data[0];
-                        e.infinity = (event.data[0] == 0);
+                        // (a file can carry this internal meta type directly, with no data)
+                        e.loops = event.data.empty() ? 0 : event.data[0];
+                        e.infinity = (e.loops == 0);
                         e.start = abs_position;
                         e.end = abs_position;
                         m_loop.stack.push_back(e);
